@@ -30,7 +30,7 @@ func init() {
 			"field values are drawn from boundary lists (0, 1, max, min=max, max<implicit min, 12-byte prefixes, several prefixes), not from the full integer ranges",
 		},
 		Units:          units,
-		QuickBudget:    60,
+		QuickBudget:    240,
 		ThoroughBudget: 600,
 	})
 }
